@@ -187,6 +187,7 @@ PROPS["C18"] = {
     "stages": [
         pbt("projection", "pbt_C18", quick={"cases": 4500, "size": 100, "shards": 8},
             thorough={"cases": 20000, "size": 200, "shards": 16}),
+        cgf("coverage_guided", "pbt_C18", quick={"runs": 8000, "workers": 8}, thorough={"runs": 500000, "workers": 16}),
     ],
 }
 
@@ -233,6 +234,7 @@ PROPS["C04"] = {
     "stages": [
         pbt("reference_parse", "pbt_C04", quick={"cases": 6000, "size": 100, "shards": 8},
             thorough={"cases": 150000, "size": 200, "shards": 16}),
+        cgf("coverage_guided", "pbt_C04", quick={"runs": 15000, "workers": 8}, thorough={"runs": 1000000, "workers": 16}),
     ],
 }
 
@@ -411,6 +413,7 @@ PROPS["C16"] = {
         pbt("bounded_exhaustive", "pbt_C16", mode="enum", quick={}, thorough={"timeout": 7200}),
         pbt("random_sequences", "pbt_C16", quick={"cases": 4500, "size": 100, "shards": 8},
             thorough={"cases": 100000, "size": 200, "shards": 16}),
+        cgf("coverage_guided", "pbt_C16", quick={"runs": 2500, "workers": 8}, thorough={"runs": 150000, "workers": 16}),
     ],
 }
 
